@@ -5,7 +5,7 @@ import EgVerif.Model.Signer
 Mirrors
 
 * `pkg/filters/validator/validator.go`: `Validator.Handle` (order headers → JWT → signature →
-  (OAuth2, not modelled) → Basic; first failure wins; 400 for header rules, 401 otherwise; result
+  OAuth2 (JWT mode) → Basic; first failure wins; 400 for header rules, 401 otherwise; result
   `invalid`), **as repaired by `fixes/C06-signature-body.patch`**: `Verify` is given a request whose
   `Body` reads the payload (`handle`); `handleDrained` is the code before the patch (`Verify`
   reads the `http.Request.Body` that `FetchPayload` already drained, i.e. the empty string);
@@ -20,7 +20,7 @@ Mirrors
 Parameters (answers supplied by the harness from the standard library / third-party modules, or
 recomputed by the judge): `regexp.MatchString`, `http.Request.Cookie`, golang-jwt's `Parse`
 (contract `JwtLib`), go-htpasswd's `File.Match` (`users`), `Signer.Crypto`, `Signer.Clock`, the clock.
-OAuth2 token validation needs a network endpoint and is out of scope (`oauth2` is never configured).
+OAuth2 token *introspection* needs a network endpoint and is out of scope; the OAuth2 validator's JWT mode is modelled (`oauthValidate`).
 -/
 namespace EgVerif.Validator
 open EgVerif.Sha256 (Bytes)
@@ -67,6 +67,43 @@ def jwtParse (lib : JwtLib) (token : Bytes) (keyFunc : Bytes → Option Bytes) :
     | none => false
     | some k => lib.claimsOK token && lib.sigOK token a k
 
+/-! ### registered time claims (`MapClaims.Valid` of golang-jwt v3.2.1, claims decoded as `float64`)
+
+`VerifyExpiresAt` / `VerifyIssuedAt` / `VerifyNotBefore` look at `m["exp"]`, `m["iat"]`, `m["nbf"]`: a JSON number is
+converted `int64(float64)` (truncation toward zero), any other JSON type — and a value that truncates to 0 — counts as
+"claim absent" (`required = false`). `now` is `jwt.TimeFunc().Unix()`. -/
+
+/-- a claim as it stands in the token's JSON: absent, a number `mant · 10^(-exp10)` (any spelling: integer,
+fraction, exponent form), or a value of another JSON type (string, bool, null, …) -/
+inductive ClaimVal
+  | absent
+  | num (mant : Int) (exp10 : Nat)
+  | other
+  deriving DecidableEq, Repr
+
+/-- `int64(float64(v))` for a number, `0` (= absent) otherwise. Exact for values with at most 53 significant bits that do
+not lie within 2⁻²² of an integer (every realistic NumericDate); the harness generates only such values. -/
+def ClaimVal.secs : ClaimVal → Int
+  | .num m e => Int.tdiv m ((10 : Int) ^ e)
+  | _ => 0
+
+structure TimeClaims where
+  exp : ClaimVal
+  iat : ClaimVal
+  nbf : ClaimVal
+
+/-- `MapClaims.Valid()` at `now` (unix seconds) -/
+def timeClaimsOK (now : Int) (c : TimeClaims) : Bool :=
+  (c.exp.secs == 0 || decide (now ≤ c.exp.secs)) && (c.iat.secs == 0 || decide (c.iat.secs ≤ now)) &&
+  (c.nbf.secs == 0 || decide (c.nbf.secs ≤ now))
+
+/-- `JwtLib.claimsOK` for a library that decodes the claims segment with `claims` (none = undecodable) and checks the
+registered time claims at `now` -/
+def claimsOKAt (now : Int) (claims : Bytes → Option TimeClaims) (tok : Bytes) : Bool :=
+  match claims tok with
+  | none => false
+  | some c => timeClaimsOK now c
+
 /-- which string `JWTValidator.Validate` hands to `jwt.Parse`; `cookie` = `req.Cookie(name)` -/
 def jwtToken (cfg : JwtCfg) (cookie : Bytes → Option Bytes) (h : Header) : Option Bytes :=
   let t := if cfg.cookieName ≠ [] then (cookie cfg.cookieName).getD [] else []
@@ -108,11 +145,24 @@ def basicValidate := basicValidateWith parseCreds
 
 /-! ## Handle -/
 
+/-- `OAuth2Validator.Validate` in self-encoded access token mode (`spec.JWT`; `cookieName` is unused): the token is what follows
+`Bearer ` in the Authorization header, `jwt.Parse` with the same key function (algorithm pinned, configured secret). The token
+introspection mode needs a network endpoint and is outside the model. -/
+def oauthValidate (c : JwtCfg) (lib : JwtLib) (h : Header) : Bool :=
+  jwtValidate ⟨c.alg, c.secret, []⟩ lib (fun _ => none) h
+
+/-- the headers `OAuth2Validator.Validate` sets on success from the token's `sub` / `scope` string claims (empty = absent) -/
+def oauthHeaders (sub scope : Bytes) : List (Bytes × Bytes) :=
+  (if sub ≠ [] then [(b "X-Authenticated-Userid", sub)] else []) ++
+  (if scope ≠ [] then [(b "X-Authenticated-Scope", scope)] else [])
+
 structure Cfg where
   headers : Option (List HeaderRule)
   jwt : Option JwtCfg
   sig : Option Signer.Cfg
   basic : Bool
+  /-- OAuth2 validator in JWT mode (checked after the signature, before Basic) -/
+  oauth2 : Option JwtCfg := none
 
 structure Env where
   re : Bytes → Bytes → Bool
@@ -144,6 +194,7 @@ def handleWith (bodySeen : Request → Option Bytes) (parse : Bytes → Option (
   if (match cfg.headers with | some rules => !headersOK env.re r.std.headers rules | none => false) then .invalid 400
   else if (match cfg.jwt with | some j => !jwtValidate j env.jwtLib env.cookie r.std.headers | none => false) then .invalid 401
   else if (match cfg.sig with | some s => !sigValidate s env r (bodySeen r) | none => false) then .invalid 401
+  else if (match cfg.oauth2 with | some o => !oauthValidate o env.jwtLib r.std.headers | none => false) then .invalid 401
   else if (cfg.basic && (basicValidateWith parse env.users r.std.headers).isNone) then .invalid 401
   else .pass
 
@@ -152,5 +203,46 @@ def handle := handleWith (fun r => some r.payload) parseCreds
 
 /-- the code before `fixes/C06-signature-body.patch`: `req.Std().Body` was drained by `FetchPayload` -/
 def handleDrained := handleWith (fun _ => some []) parseCreds
+
+/-! ## Glue for the regenerated tie by translation (`Gen/FactsC06IR.lean`, `Proofs/ValidatorIR.lean`)
+
+Go's `(value, error)` results are pairs `(value, err ≠ nil)`; library functions of the `strings`
+package used by the validator code, on byte strings. Contracts of the standard library, not /repo code. -/
+
+/-- `(v, err)` of a call whose model is an `Option`: zero value and `err != nil` when `none` -/
+def optPair (x : Option Bytes) : Bytes × Bool := (x.getD [], x.isNone)
+def optTriple (x : Option (Bytes × Bytes)) : Bytes × Bytes × Bool := ((x.getD ([], [])).1, (x.getD ([], [])).2, x.isNone)
+/-- `strings.SplitN(s, string(c), 2)` -/
+def splitN2 (c : UInt8) (s : Bytes) : List Bytes :=
+  match splitFirst c s with
+  | none => [s]
+  | some (a, t) => [a, t]
+/-- `strings.TrimPrefix(s, p)` -/
+def trimPrefix (s p : Bytes) : Bytes := (stripPrefix p s).getD s
+/-- `req.Cookie(name)`: `(cookie.Value, err != nil)` -/
+def cookieE (cookie : Bytes → Option Bytes) (name : Bytes) : Bytes × Bool := optPair (cookie name)
+
+/-- `v.introspectToken(tok)` as `((active, subject, scope), err != nil)`; `none` = no introspection endpoint configured -/
+def introspectE (f : Option (Bytes → Option (Bool × Bytes × Bytes))) (tok : Bytes) : (Bool × Bytes × Bytes) × Bool :=
+  match f with
+  | some g => (match g tok with | some ti => (ti, false) | none => ((false, [], []), true))
+  | none => ((false, [], []), true)
+
+/-- `*http.Request` handed to `Signer.Verify` by `Handle`: the parsed request and what reading its `Body` yields -/
+structure StdReq where
+  req : Req
+  body : Option Bytes
+
+/-- `v.signer.Verify(stdr) == nil` -/
+def sigValidateStd (c : Signer.Cfg) (env : Env) (x : StdReq) : Bool :=
+  match verify c env.crypto env.clock env.now x.req x.body with
+  | .ok _ => true
+  | .error _ => false
+
+/-- result string and status of the response set by `prepareErrorResponse` (none: no response set) -/
+def outcomeOf (result : Bytes) (status : Option Int) : Option Outcome :=
+  if result = [] ∧ status = none then some .pass
+  else if result = b "invalid" then (match status with | some s => some (.invalid s.toNat) | none => none)
+  else none
 
 end EgVerif.Validator
